@@ -283,6 +283,8 @@ def split_mono(pc, m, depth=0):
     body = z3.simplify(prune(pc, body, ctx))
     if _is_zero(body):
         return []
+    if pc.implied(body == 0, ctx):
+        return []
     if depth > 12:
         return [Mono(vars, body)]
     conds = []
